@@ -6,6 +6,8 @@ import (
 	"encoding/binary"
 	"errors"
 	"fmt"
+	"runtime"
+	"strings"
 	"sync"
 	"time"
 
@@ -56,6 +58,71 @@ type fakeChain struct {
 	filterCalls  int
 	filterFailAt int // the n-th FilterBlocks call fails (once); 0 = never
 	rescans      int
+
+	// failFired (buffered) receives a token when the injected FilterBlocks failure fires; failHeight is the height
+	// of the first block of the failing request (= of the rest of the recovery batch being scanned).
+	failFired  chan struct{}
+	failHeight int32
+	// holdAt != 0: the GetBlockHash(holdAt) call made by the block loop of (*Wallet).recovery blocks (once) until
+	// holdRelease is closed; holdReached (buffered) tells the runner that the loop is parked there.
+	holdAt      int32
+	holdReached chan struct{}
+	holdRelease chan struct{}
+}
+
+// armHold parks the next recovery loop that fetches the hash of block `height`.
+func (fc *fakeChain) armHold(height int32) {
+	fc.mu.Lock()
+	defer fc.mu.Unlock()
+	fc.holdAt = height
+	fc.holdReached = make(chan struct{}, 1)
+	fc.holdRelease = make(chan struct{})
+}
+
+func (fc *fakeChain) disarmHold() {
+	fc.mu.Lock()
+	defer fc.mu.Unlock()
+	fc.holdAt = 0
+}
+
+// calledFrom reports whether a function whose name ends in `suffix` is on the caller's stack.
+func calledFrom(suffix string) bool {
+	pc := make([]uintptr, 32)
+	n := runtime.Callers(2, pc)
+	frames := runtime.CallersFrames(pc[:n])
+	for {
+		f, more := frames.Next()
+		if strings.HasSuffix(f.Function, suffix) {
+			return true
+		}
+		if !more {
+			return false
+		}
+	}
+}
+
+// goroutineParked reports whether some goroutine with `fn` on its stack is currently blocked in state `state`
+// (e.g. "chan receive"), according to the runtime's goroutine dump.
+func goroutineParked(fn, state string) bool {
+	buf := make([]byte, 1<<16)
+	for {
+		n := runtime.Stack(buf, true)
+		if n < len(buf) {
+			buf = buf[:n]
+			break
+		}
+		buf = make([]byte, 2*len(buf))
+	}
+	for _, g := range strings.Split(string(buf), "\n\n") {
+		nl := strings.IndexByte(g, '\n')
+		if nl < 0 {
+			continue
+		}
+		if strings.Contains(g[:nl], "["+state) && strings.Contains(g[nl:], fn) {
+			return true
+		}
+	}
+	return false
 }
 
 // conn is one "connection" of a wallet to the backend: a notification channel and its shutdown signal.
@@ -229,6 +296,17 @@ func (fc *fakeChain) GetBlock(h *chainhash.Hash) (*wire.MsgBlock, error) {
 
 func (fc *fakeChain) GetBlockHash(height int64) (*chainhash.Hash, error) {
 	fc.mu.Lock()
+	if fc.holdAt != 0 && int64(fc.holdAt) == height && calledFrom("wallet.(*Wallet).recovery") {
+		fc.holdAt = 0
+		reached, release := fc.holdReached, fc.holdRelease
+		fc.mu.Unlock()
+		reached <- struct{}{}
+		select {
+		case <-release:
+		case <-time.After(30 * time.Second):
+		}
+		fc.mu.Lock()
+	}
 	defer fc.mu.Unlock()
 	if height < 0 || height >= int64(len(fc.best)) {
 		return nil, errNoBlock
@@ -255,8 +333,18 @@ func (fc *fakeChain) FilterBlocks(req *chain.FilterBlocksRequest) (*chain.Filter
 	fc.mu.Lock()
 	fc.filterCalls++
 	fail := fc.filterFailAt != 0 && fc.filterCalls == fc.filterFailAt
+	fired := fc.failFired
+	if fail && len(req.Blocks) > 0 {
+		fc.failHeight = req.Blocks[0].Height
+	}
 	fc.mu.Unlock()
 	if fail {
+		if fired != nil {
+			select {
+			case fired <- struct{}{}:
+			default:
+			}
+		}
 		return nil, errors.New("fakechain: injected FilterBlocks failure")
 	}
 	bf := chain.NewBlockFilterer(fc.params, req)
